@@ -29,7 +29,7 @@ class CheckError(Exception):
 
 def sh(cmd, cwd=None, env=None, timeout=None, input=None, check=False):
     p = subprocess.run(cmd, cwd=cwd, env=env or GOENV, timeout=timeout, input=input,
-                       stdout=subprocess.PIPE, stderr=subprocess.PIPE, text=True)
+                       stdout=subprocess.PIPE, stderr=subprocess.PIPE, text=True, errors="backslashreplace")
     if check and p.returncode != 0:
         raise CheckError("command failed: %s\n%s\n%s" % (cmd, p.stdout[-2000:], p.stderr[-4000:]))
     return p
